@@ -15,19 +15,20 @@ RULE = ("r <hex Range value> <clen>: HttpHdrRange::ParseCreate then canonize(cle
         "non-trivial = the header was accepted and at least one canonical range was produced")
 TRUSTED = ["modelled, not verified: strtoll(…,10)+errno of the C library; String::caseCmp is modelled as a 6-byte case-insensitive "
            "prefix test; the list-splitting byte sets of strListGetItem are probed from the running function every run",
-           "direct oracle = python big-integer reading of RFC 7233 byte-range-set (elements split at ',', SP/HTAB around elements "
-           "and empty elements tolerated as RFC 7230 section 7 asks of recipients)"]
+           "direct oracle = python big-integer reading of RFC 7233 byte-range-set (elements split at ',', SP/HTAB/VT/FF around "
+           "elements and empty elements tolerated as RFC 7230 section 7 asks of recipients; VT/FF since /repo 43aac5c)"]
 ASSUMPTIONS = ["header values are C strings without NUL, CR, LF (as delivered by the header parser)",
                "item-level cases (op p) use non-empty, right-trimmed items, as strListGetItem produces them",
                "0 <= clen <= INT64_MAX (Http::Stream::buildRangeHeader refuses content_length < 0 before calling canonize)"]
 MANIFEST = {
-    "text": "full for the spec level, known exception at the list level: canon_sound_complete (every accepted header, every "
+    "text": "full: canon_sound_complete (every accepted header, every "
             "0<=clen<=INT64_MAX: canonize raises no overflow/assert, each canonical range is non-empty, inside [0,clen), the canonical "
             "list is the order-preserving image of the satisfiable specs with exactly their bytes), rfc_header_end_to_end (every RFC 7233 "
             "spec list with numbers <= INT64_MAX in any comma/OWS layout is read as exactly those specs and canonised to exactly their "
             "bytes), invalid_spec_ignores_header (an item that is not 1*DIGIT-1*DIGIT / 1*DIGIT- / -1*DIGIT with last>=first makes the "
-            "whole header ignored) and no_overflow (no input makes parsing or canonicalisation overflow or assert) are proved for all "
-            "inputs of the repaired parser (/repo cc9716a). Remaining known finding: strListGetItem treats VT/FF as list white space",
+            "whole header ignored), list_ends_only_at_end_of_header (the item loop stops only when nothing but commas/white space is "
+            "left) and no_overflow (no input makes parsing or canonicalisation overflow or assert) are proved for all inputs of the "
+            "repaired code (/repo cc9716a, 43aac5c). No known finding is left",
     "note": "trusted: Lean kernel, harness, python oracle; modelled not verified: strtoll/errno, String::caseCmp; clen < 0 is outside "
             "the domain (guarded by the only caller). `items` in invalid_spec_ignores_header are the items as strListGetItem cuts them",
     "technique": "Lean 4 proof (checked int64 arithmetic, induction over the item loop, exact characterisation of parseBytePos) + "
@@ -36,6 +37,10 @@ MANIFEST = {
 
 I64MAX = (1 << 63) - 1
 CWS = b" \t\n\x0b\x0c\r"
+# white space around list elements: SP/HTAB (RFC 7230 OWS) and, by the maintainers' decision in /repo 43aac5c, VT/FF, which squid's
+# list splitter treats like the other white space it trims; CR/LF do not occur in header values. Inside an element no white space
+# is allowed, and every element between commas must be a spec.
+LIST_WS = b" \t\x0b\x0c"
 
 
 def build_exe(stage):
@@ -263,7 +268,7 @@ def strict_header(value):
         return None
     specs = []
     for e in value[6:].split(b","):
-        e = e.strip(b" \t")
+        e = e.strip(LIST_WS)
         if e == b"":
             continue
         s = strict_spec(e)
@@ -360,48 +365,6 @@ def oracle(line, impl):
             return None
         return "spec parsed to %d:%d, expected %d:%d" % ((off, ln) + want)
     return "unknown op"
-
-
-# ---- classification of failures into the remaining known finding (narrow)
-
-def squid_items(body):
-    """list items the way strListGetItem(…, ',') cuts them (quote aware), right-trimmed by isspace; stops at a blank item"""
-    items, i, n = [], 0, len(body)
-    while True:
-        while i < n and body[i] in b" ,\t\r\n":
-            i += 1
-        start, quoted = i, False
-        while i < n:
-            c = body[i]
-            if c == 0x22:
-                quoted = not quoted
-                i += 1
-            elif quoted and c == 0x5c:
-                i += 2 if i + 1 < n else 1
-            elif not quoted and c == 0x2c:
-                break
-            else:
-                i += 1
-        item = body[start:i].rstrip(CWS)
-        if not item:
-            return items
-        items.append(item)
-
-
-def classify(line, impl, why):
-    """C28-list-whitespace only: the header is not a byte-range-set for the oracle, it contains VT or FF, and every item - cut
-    the way strListGetItem cuts, i.e. with VT/FF trimmed and a VT/FF-only element ending the list - is a strict spec."""
-    try:
-        op, a, b = line.split(" ")
-        first = unhx(a)
-    except ValueError:
-        return None
-    if op == "r" and why and why.startswith(INVALID_NOT_IGNORED) and impl.startswith("ok ") and first[:6].lower() == b"bytes=" \
-            and (b"\x0b" in first or b"\x0c" in first):
-        items = squid_items(first[6:])
-        if items and all(strict_spec(i) is not None for i in items):
-            return "C28-list-whitespace"
-    return None
 
 
 def shrink(line):
